@@ -178,7 +178,7 @@ def partial_eval_dispatch(fn, attr_text, value, want):
             elif isinstance(s, ast.Return):
                 env["__return__"] = s.value
                 return
-            elif isinstance(s, ast.Expr):
+            elif isinstance(s, (ast.Expr, ast.Pass)):
                 continue
             elif isinstance(s, ast.Raise):
                 env["__assert_false__"] = True
